@@ -91,23 +91,37 @@ Proof. exact sum_app. Qed.
 
 (* Stream id stability, for every history of any length (any interleaving of
    streams, nodes with and without the call-state cache, tampered or missing
-   call tokens, cancels): a continuation that logs a record logs the id minted
-   by the init request whose tokens it echoed — the same id the init logged. *)
-Theorem stream_id_stable : forall ops j node c t cancel q fresh r,
-  nth_error ops j = Some (OCont node c t cancel q fresh) ->
+   call tokens, cancels, and ANY placement of hooks: the /init may have been
+   served by a process that logs nothing, a hook may appear later, other nodes
+   may log): the id is fixed at /init, travels in the call token, and every
+   continuation that logs a record logs exactly that id — the id the init
+   logged, if the init was logged at all. *)
+Theorem stream_id_stable : forall ops j node c t cancel q fresh h r,
+  nth_error ops j = Some (OCont node c t cancel q fresh h) ->
   In r (nth j (run_from init_state ops) []) ->
-  exists node0 q0 sid,
-    nth_error ops c = Some (OInit node0 q0 sid true)
-    /\ nth c (run_from init_state ops) [] = [assemble (dinfo_of q0 true true sid sid false true)]
-    /\ (sid <> [] -> sid_of r = Some sid
-                     /\ sid_of (assemble (dinfo_of q0 true true sid sid false true)) = Some sid).
+  exists node0 q0 sid h0,
+    nth_error ops c = Some (OInit node0 q0 sid true h0)
+    /\ (sid <> [] -> sid_of r = Some sid)
+    /\ (h0 = true ->
+        nth c (run_from init_state ops) [] = [assemble (dinfo_of q0 true true sid sid false true)]
+        /\ (sid <> [] -> sid_of (assemble (dinfo_of q0 true true sid sid false true)) = Some sid)).
 Proof. exact stream_id_stable_lemma. Qed.
+
+(* Hence: any two records of one stream (its init and any of its continuations,
+   as identified by the tokens echoed, not by the logged id) carry one and the
+   same 32-hex id. *)
+Theorem one_stream_one_id : forall ops, input_wf ops = true -> forall c j1 j2 o1 o2 r1 r2,
+  nth_error ops j1 = Some o1 -> nth_error ops j2 = Some o2 ->
+  in_stream c j1 o1 = true -> in_stream c j2 o2 = true ->
+  In r1 (nth j1 (run_from init_state ops) []) -> In r2 (nth j2 (run_from init_state ops) []) ->
+  exists sid, lower_hex 32 sid = true /\ sid_of r1 = Some sid /\ sid_of r2 = Some sid.
+Proof. exact one_stream_one_id_lemma. Qed.
 
 (* The whole property in the decidable form the correspondence check evaluates
    on the implementation's lines: every record of every well-formed history is
    record_ok, carries redacted claims (none when the redactor fails), payload or
    marker exactly on unary / init records, byte counts equal to the wire
-   measurements, and on continuations the init's stream id. *)
+   measurements, and every record of one stream the stream's first logged id. *)
 Theorem spec_holds_on_model : forall i, input_wf i = true -> spec_ok i (model i) = true.
 Proof. exact model_meets_spec. Qed.
 
@@ -120,10 +134,15 @@ Theorem undeclared_length_refuted :
 Proof. exact undeclared_length_witness. Qed.
 
 (* non-vacuity: a well-formed history with a stream opened on the caching node
-   and continued on the cache-less one; both records carry the minted id *)
+   and continued on the cache-less one; both records carry the minted id; and a
+   history whose /init is served without a hook, logged only from the two
+   continuations on, which both carry the id minted at /init *)
 Example premises_satisfiable :
   input_wf example_history = true
   /\ map (fun x => map sid_of (ob_records x)) (model example_history)
      = [[Some (str "0123456789abcdef0123456789abcdef")]; [Some (str "0123456789abcdef0123456789abcdef")]]
-  /\ dinfo_wf example_dinfo = true /\ trace_ctx (d_trace example_dinfo) <> None.
+  /\ dinfo_wf example_dinfo = true /\ trace_ctx (d_trace example_dinfo) <> None
+  /\ input_wf example_late_hook = true
+  /\ map (fun x => map sid_of (ob_records x)) (model example_late_hook)
+     = [[]; []; [Some (str "0123456789abcdef0123456789abcdef")]; [Some (str "0123456789abcdef0123456789abcdef")]].
 Proof. exact example_ok. Qed.
